@@ -1,1 +1,174 @@
-"""Lanes B2/B3: coroutine plumbing and environment stubs (filled in by the async harnesses)."""
+"""Lanes B2/B3: coroutine plumbing and environment stubs for tokio / futures.
+
+A coroutine (async fn / async block) is a CoroV; polling it runs its MIR resume function.
+Foreign futures (channels, timers, sockets, codec sink/stream) are EnvFut objects whose poll is
+answered by an *environment* the harness installs on the context: ctx.env[kind](ctx, fut) ->
+value (Ready) | PENDING.  Channel endpoints are Tok objects recording what was sent."""
+import z3
+from .values import *
+from .models import M, reg, regp, B64, BOOL, TRUE, FALSE, seq_of, clone_val
+
+PENDING = object()
+
+
+class Tok:
+    """channel endpoint / opaque runtime handle"""
+    def __init__(self, kind, name=''):
+        self.kind = kind; self.name = name; self.sent = []; self.closed = False; self.peer = None; self.dropped = False
+
+    def __repr__(self):
+        return f'Tok({self.kind}:{self.name},sent={len(self.sent)})'
+
+    def clone(self):
+        return self          # sender clones share the channel
+
+    def on_drop(self, c):
+        self.dropped = True
+
+
+class EnvFut:
+    def __init__(self, kind, **kw):
+        self.kind = kind; self.__dict__.update(kw)
+
+    def __repr__(self):
+        return f'EnvFut({self.kind})'
+
+
+def channel(name):
+    tx = Tok('tx', name); rx = Tok('rx', name); tx.peer = rx; rx.peer = tx
+    rx.queue = []
+    return tx, rx
+
+
+def poll_value(c, fut, cx):
+    """poll anything future-like once -> Poll value"""
+    f = deref(fut)
+    while isinstance(f, Tup) and len(f) == 1:
+        f = deref(f[0])
+    if isinstance(f, CoroV):
+        if f.state == 1:
+            raise PanicExc(f.body, 'panic', '`async fn` resumed after completion')
+        return c.run_fn(f.body, [Tup([f]), cx])
+    if isinstance(f, EnvFut):
+        h = c.env.get(f.kind)
+        if h is None:
+            raise Unsupported('no environment stub for awaited future ' + f.kind)
+        r = h(c, f)
+        if r is PENDING:
+            return EnumV('Poll', 'Pending')
+        return EnumV('Poll', 'Ready', [r])
+    if isinstance(f, Tok) and f.kind == 'rx':
+        # awaiting a oneshot receiver
+        h = c.env.get('recv_oneshot')
+        if h is None:
+            raise Unsupported('no environment stub for awaited oneshot receiver')
+        r = h(c, EnvFut('recv_oneshot', rx=f))
+        return EnumV('Poll', 'Pending') if r is PENDING else EnumV('Poll', 'Ready', [r])
+    if hasattr(f, 'poll'):
+        return f.poll(c, cx)
+    raise Unsupported('poll of ' + type(f).__name__)
+
+
+@reg('Future::poll')
+def m_future_poll(c, call, pin, cx):
+    return poll_value(c, pin, cx)
+
+
+@reg('IntoFuture::into_future')
+def m_into_future(c, call, x): return x
+
+
+@reg('std::future::poll_fn', 'poll_fn', 'future::poll_fn', 'core::future::poll_fn')
+def m_poll_fn(c, call, clo):
+    class PollFn:
+        def poll(self, c, cx):
+            return c.callf(clo, [cx])
+    return PollFn()
+
+
+@reg('tokio::macros::support::poll_budget_available', 'support::poll_budget_available', 'poll_budget_available')
+def m_budget(c, call, cx): return EnumV('Poll', 'Ready', [UNIT])
+
+
+@reg('tokio::macros::support::thread_rng_n', 'support::thread_rng_n', 'thread_rng_n')
+def m_rng(c, call, n):
+    v = c.fresh('select_start', 32); c.assume(z3.ULT(v, n)); return v
+
+
+@reg('Poll::is_pending')
+def m_is_pending(c, call, p): return BOOL(deref(p).variant == 'Pending')
+@reg('Poll::is_ready')
+def m_is_ready(c, call, p): return BOOL(deref(p).variant == 'Ready')
+
+
+# ---- channels
+
+@reg('tokio::sync::mpsc::unbounded_channel', 'mpsc::unbounded_channel', 'unbounded_channel')
+def m_unbounded_channel(c, call):
+    c.nchan = getattr(c, 'nchan', 0) + 1
+    tx, rx = channel(f'mpsc{c.nchan}')
+    c.channels = getattr(c, 'channels', []) + [(tx, rx)]
+    return Tup([tx, rx])
+
+
+@reg('tokio::sync::oneshot::channel', 'oneshot::channel')
+def m_oneshot_channel(c, call):
+    c.nchan = getattr(c, 'nchan', 0) + 1
+    tx, rx = channel(f'oneshot{c.nchan}')
+    c.channels = getattr(c, 'channels', []) + [(tx, rx)]
+    return Tup([tx, rx])
+
+
+@reg('UnboundedSender::send', 'Sender::send')
+def m_sender_send(c, call, tx, val):
+    tx = deref(tx)
+    if not isinstance(tx, Tok):
+        raise Unsupported('send on ' + type(tx).__name__)
+    h = getattr(c, 'env', {}).get('send:' + tx.name) or getattr(c, 'env', {}).get('send')
+    if h is not None:
+        return h(c, tx, val)
+    if tx.closed or (tx.peer is not None and tx.peer.dropped):
+        return Err(val if 'oneshot' in tx.name else StructV('SendError', [(0, val)]))
+    tx.sent.append(val)
+    if tx.peer is not None and hasattr(tx.peer, 'queue'):
+        tx.peer.queue.append(val)
+    return Ok(UNIT)
+
+
+@reg('UnboundedSender::is_closed', 'Sender::is_closed')
+def m_sender_is_closed(c, call, tx): return BOOL(deref(tx).closed)
+
+
+@reg('UnboundedReceiver::recv', 'Receiver::recv')
+def m_recv(c, call, rx): return EnvFut('recv', rx=deref(rx))
+
+
+@reg('tokio::time::timeout', 'time::timeout', 'timeout')
+def m_timeout(c, call, dur, fut): return EnvFut('timeout', dur=dur, fut=fut)
+
+
+@reg('tokio::time::sleep', 'time::sleep')
+def m_sleep(c, call, dur): return EnvFut('sleep', dur=dur)
+
+
+@reg('tokio::sync::Mutex::new', 'sync::Mutex::new')
+def m_tokio_mutex_new(c, call, x): return Tup([x])
+
+
+@reg('Mutex::lock')
+def m_any_lock(c, call, m):
+    m0 = deref(m)
+    inner = m0[0] if isinstance(m0, Tup) and len(m0) == 1 else m0
+    callee = call.callee
+    if 'tokio::sync' in callee or 'tokio' in (call.self_ty or ''):
+        class LockFut:
+            def poll(self, c, cx): return EnumV('Poll', 'Ready', [Tup([inner])])
+        return LockFut()
+    return Ok(inner)
+
+
+@reg('StreamExt::next', 'SinkExt::send', 'SinkExt::close', 'AsyncWriteExt::shutdown', 'Framed::get_mut', 'Framed::get_ref')
+def m_framed(c, call, st, *a):
+    k = call.key.split('::')[1]
+    if k in ('get_mut', 'get_ref'): return st
+    return EnvFut('framed:' + k, stream=deref(st), args=a)
